@@ -61,7 +61,7 @@ try:
                         tail_with=o_with.strip().splitlines()[-3:], tail_without=o_without.strip().splitlines()[-2:])
     print('demo: with change exit=%d, without exit=%d' % (rc_with, rc_without))
     if baseline:
-        rc, o = sh('/venv/bin/python /verif/tools/baseline.py %s -n 8' % wt)
+        rc, o = sh('/venv/bin/python /verif/tools/baseline.py %s -n 5' % wt)
         meta['baseline'] = dict(exit=rc, lines=o.strip().splitlines()[-2:])
         print('baseline:', o.strip().splitlines()[-1])
     meta['checks'] = {}
